@@ -593,4 +593,38 @@ Section Facts.
     - exact Hl.
     - simpl in *. exists b, c. split; [exact Hb|]. split; [exact Hd|]. split; [exact Hc | exact Hdata].
   Qed.
+
+  (* ================= reindex, then label access (C12 observed through C10's access path) =================
+     Reading the result by label — with any lookup that meets locate_spec on the NEW span — gives, for every variable and every
+     period p of the new span, the old value at p's position in the old span if p is there, else the variable's fill. *)
+  Theorem reindex_then_label_get (st st' : cst) (new_span : span) (new_id : Z) (fv : pyval) (strict : option bool)
+          (fills : list (string * pyval)) (fresh : Z) (lc' : label -> outcome loc) :
+    wf st ->
+    old_span_ok (c_span st) (span_labels new_span) ->
+    reindex_M' st new_span new_id fv strict fills fresh = Ret st' ->
+    locate_spec (span_labels new_span) lc' ->
+    forall name sr, lookup name (c_vars st) = Some sr ->
+    exists c, fill_cell' (length (span_labels new_span)) (s_dtype sr) (fill_for fills fv name) = Ret c
+      /\ forall p i, pos p (span_labels new_span) = Some i ->
+           get_item_with lc' st' name (KLabel p)
+           = Ret (RScalar (match pos p (span_labels (c_span st)) with Some q => nth q (s_data sr) c | None => c end)).
+  Proof.
+    intros Hwf Hok H Hspec name sr Hl.
+    destruct (reindex_values st st' new_span new_id fv strict fills fresh Hwf Hok H) as [Hsp [_ [_ [_ HF]]]].
+    destruct (Forall2_lookup (fun a b => s_dtype (snd b) = s_dtype (snd a)
+                 /\ exists c, fill_cell' (length (span_labels new_span)) (s_dtype (snd a)) (fill_for fills fv (fst a)) = Ret c
+                           /\ s_data (snd b) = reindexed_data (span_labels (c_span st)) (s_data (snd a)) c (span_labels new_span))
+               (c_vars st) (c_vars st') name sr) as [sr' [Hl' [_ [c [Hc Hd]]]]].
+    - clear - HF. induction HF as [|a b l l' [Ha [Hb Hc]] HF IH]; constructor; [|exact IH]. split; [exact Ha|]. split; [exact Hb | exact Hc].
+    - exact Hl.
+    - simpl in *. exists c. split; [exact Hc|]. intros p i Hp.
+      assert (Hlen : length (s_data sr') = length (span_labels (c_span st'))).
+      { rewrite Hd, Hsp. unfold reindexed_data. apply map_length. }
+      assert (Hspec' : locate_spec (span_labels (c_span st')) lc') by (rewrite Hsp; exact Hspec).
+      assert (Hp' : pos p (span_labels (c_span st')) = Some i) by (rewrite Hsp; exact Hp).
+      destruct (label_get_exact lc' st' name sr' Hspec' Hl' Hlen p i Hp') as [v [Hv Hg]].
+      rewrite Hg. f_equal. f_equal.
+      rewrite Hd in Hv. unfold reindexed_data in Hv. rewrite nth_error_map in Hv.
+      destruct (pos_Some _ _ _ Hp) as [Hn _]. rewrite Hn in Hv. simpl in Hv. congruence.
+  Qed.
 End Facts.
